@@ -147,36 +147,41 @@ def validate(c, traces, cfg="L2LockTrace.cfg", chunk=None, timeout=1500, par=4):
     return ends, rej
 
 
-def judge(c, traces, kind, stats):
+def judge(c, traces, stats):
+    """traces are named '<kind>:<name>'; returns stats[kind] = counts per verdict."""
     ends, rej = validate(c, traces)
     rejected = set(x["i"] for x in rej)
     for x in rej[:3]:
+        kind = x["trace"].split(":")[0]
         variant, cap = setup_of(x["events"])
         ev = x["event"] or {}
         sig = "unexplained:%s:cap-%s:%s:%s:ok=%s" % (variant, "inf" if cap == INF else "finite", ev.get("ev"), ev.get("op"), ev.get("ok"))
-        c.report(sig, "real %s lock service (cap %s) did something no behaviour of the specification explains, at event %d of %s trace %s: %s"
-                 % (variant, cap, x["index"], kind, x["trace"], json.dumps({k: ev.get(k) for k in ("ev", "o", "op", "ks", "ttl", "ok", "other", "cmd")})),
+        c.report(sig, "real %s lock service (cap %s) did something no behaviour of the specification explains, at event %d of %s: %s"
+                 % (variant, cap, x["index"], x["trace"], json.dumps({k: ev.get(k) for k in ("ev", "o", "op", "ks", "ttl", "ok", "other", "cmd")})),
                  dict(kind=kind, trace=x["trace"], events=x["events"], rejected_index=x["index"]))
-    stats["unexplained"] = stats.get("unexplained", 0) + len(rej)
+    for x in rej:
+        st = stats.setdefault(x["trace"].split(":")[0], {})
+        st["unexplained"] = st.get("unexplained", 0) + 1
     shown = {}
     for i, (name, evs) in enumerate(traces):
+        st = stats.setdefault(name.split(":")[0], {})
         if i in rejected:
             continue
         sets = ends.get(i)
         if not sets:
             raise vlib.InfraError("no END record for accepted trace %s" % name)
         if frozenset() in sets:
-            stats["conforming"] = stats.get("conforming", 0) + 1
+            st["conforming"] = st.get("conforming", 0) + 1
             continue
         best = sorted(sorted(s) for s in sets if len(s) == min(len(t) for t in sets))[0]
         variant, cap = setup_of(evs)
         for tag in best:
             sig = "finding:%s:%s" % (variant, tag)
-            stats[sig] = stats.get(sig, 0) + 1
+            st[sig] = st.get(sig, 0) + 1
             if shown.get(sig, 0) < 2:
                 shown[sig] = shown.get(sig, 0) + 1
-                c.report(sig, "%s  [%s trace %s: %s]" % (WHAT.get(tag, tag), kind, name, brief(evs)),
-                         dict(kind=kind, trace=name, events=evs, needs=best))
+                c.report(sig, "%s  [%s: %s]" % (WHAT.get(tag, tag), name, brief(evs)),
+                         dict(trace=name, events=evs, needs=best))
     return stats
 
 
@@ -244,7 +249,7 @@ def _run(c, design, plan):
         return tr, info
 
     # ------------------------------------------------------------------ 2. code -> spec: random serial programs
-    rnd = dict(count=c.pick(400, 4000), maxlen=14, variants=["mem", "redis"], caps=[1, 2, 3, 6, INF], owners=4, keys=6,
+    rnd = dict(count=c.pick(300, 4000), maxlen=14, variants=["mem", "redis"], caps=[1, 2, 3, 6, INF], owners=4, keys=6,
                maxttl=3, tickpct=18, seed=c.seed)
     tr_rnd, info = drive("random", rnd, "rnd")
     if info["timing_dropped"] > max(3, rnd["count"] // 50):
@@ -254,15 +259,26 @@ def _run(c, design, plan):
     ilv = dict(count=c.pick(150, 1500), maxlen=3, variants=["redis"], caps=[INF], owners=3, keys=3, maxttl=2, tickpct=8,
                seed=c.seed + 1000)
     tr_ilv, info = drive("interleave", ilv, "ilv")
+    # the model's steps are the Redis commands of the adapter as it is (SET NX / GET / GETEX / DEL); an adapter that talks
+    # to Redis differently (e.g. WATCH/MULTI/EXEC) cannot be matched command by command: such traces are not judged here
+    # (the same calls are judged at whole-call granularity by the serial phases)
+    known_cmds = {"SET", "GET", "GETEX", "DEL"}
+    n_all = len(tr_ilv)
+    tr_ilv = [(n, e) for n, e in tr_ilv if all(x.get("cmd") in known_cmds for x in e if x.get("ev") == "Step")]
+    cov["interleaved_not_judged_other_command_protocol"] = n_all - len(tr_ilv)
     # ------------------------------------------------------------------ 4. mem: concurrent goroutines
     strs = dict(count=c.pick(100, 1000), maxlen=4, variants=["mem"], caps=[1, 2, INF], owners=3, keys=3, maxttl=2, tickpct=0,
                 seed=c.seed + 2000)
     tr_str, info = drive("stress", strs, "str")
     cov["stress"] = info
-    for kind, tr in (("random", tr_rnd), ("interleaved", tr_ilv), ("concurrent", tr_str)):
-        stats[kind] = judge(c, tr, kind, {})
-        ntr += len(tr)
-        c.sample(dict(kind=kind, trace=tr[0][1][:16]))
+    # one validation batch for the three kinds (fewer JVM starts), judged per kind
+    groups = (("random", tr_rnd), ("interleaved", tr_ilv), ("concurrent", tr_str))
+    merged = [(kind + ":" + n, e) for kind, tr in groups for n, e in tr]
+    stats.update(judge(c, merged, {}))
+    ntr += len(merged)
+    for kind, tr in groups:
+        if tr:
+            c.sample(dict(kind=kind, trace=tr[0][1][:16]))
     # ------------------------------------------------------------------ 5. spec -> code: one behaviour per distinct state
     progs, reach = [], {t: 0 for t in TAGS}
     for cfg, owners, nkeys in (("L2Lock_emit.cfg", ["A", "B", "C"], 2), ("L2Lock_emit3.cfg", ["A", "B"], 3)):
@@ -283,12 +299,15 @@ def _run(c, design, plan):
     if min(reach.values()) == 0:
         raise vlib.InfraError("a finding action of the model is unreachable: %s" % reach)
     cov["behaviours_emitted"] = len(progs)
+    if c.quick:   # quick tier executes every second behaviour (which half depends on the seed); thorough executes all
+        progs = [p for i, p in enumerate(progs) if i % 2 == c.seed % 2]
+    cov["behaviours_executed"] = len(progs)
     cov["finding_steps_in_emitted_behaviours"] = reach
     tr, info = drive("replay", progs, "beh")
     if info["timing_dropped"] > len(progs) // 50:
         raise vlib.InfraError("too many in-memory traces could not be timed reliably: %s" % info)
     cov["replay"] = info
-    stats["tlc-behaviour"] = judge(c, tr, "tlc-behaviour", {})
+    stats.update(judge(c, [("tlc-behaviour:" + n, e) for n, e in tr], {}))
     ntr += len(tr)
     c.sample(dict(kind="tlc-behaviour", trace=tr[len(tr) // 2][1][:12]))
     # ------------------------------------------------------------------ the remaining design runs
@@ -301,9 +320,9 @@ def _run(c, design, plan):
     conforming = sum(s.get("conforming", 0) for s in stats.values())
     cov.update(dict(
         evaluations=ntr, distinct_nontrivial=len(progs),
-        rule="one case = one executed call sequence; distinct_nontrivial counts the TLC-emitted behaviours only: one shortest "
-             "call sequence for every distinct state (modulo owner renaming) of the whole-call model, each executed on the real "
-             "service and validated; evaluations adds the random, interleaved and concurrent traces",
+        rule="one case = one executed call sequence; distinct_nontrivial counts the executed TLC-emitted behaviours only: one "
+             "shortest call sequence per distinct state (modulo owner renaming) of the whole-call model (quick tier: every second "
+             "one), each executed on the real service and validated; evaluations adds the random, interleaved and concurrent traces",
         traces_conforming_to_repaired_model=conforming,
     ))
     c.assumptions += ["harness/lib/resp stands in for Redis (virtual clock; SET NX PX, GET, GETEX, DEL semantics as documented)",
